@@ -15,26 +15,38 @@ def finding_key(req, obs, detail):
     m = re.search(r" min=(.*)$", detail or "")
     if m:
         key = m.group(1)
+        marks = (detail or "").split(" min=")[0]
+        # The known template misreading (finding 2): a `<` operator … a `>` operator directly in front of `(` is read by
+        # expr_p1_call as `name<args>(…)`.  One family, two class keys:
+        known_lt_gt = ("tree-differs[bin:GreaterThan->call] ret (bin GreaterThan (bin LessThan (id a) (id a)) "
+                       "(bin BitwiseAnd (id a) (id a)))")
+        # comma-list variant: the `<` stands in an earlier and the `> (` in a later entry of a call argument list, so the
+        # list `f(a < b, c > (d))` reads back as `f<b, c>(d)`-like: ONE argument (a different argument count)
+        known_lt_gt_list = ("tree-differs[list-length] ret (call (id a) () ((bin LessThan (id a) (id a)) "
+                            "(bin GreaterThan (id a) (bin BitwiseAnd (id a) (id a)))))")
+        family = False
         # `a < a > (X)`: any right operand that is printed in parentheses gives the same misreading
-        # (also when the operand only *starts* with `(`, e.g. `a < a > (++a)++`, where the call ends up below a postfix node)
-        pre = "tree-differs[bin:GreaterThan->call] ret (bin GreaterThan (bin LessThan (id a) (id a)) "
-        # (a cast as right operand also starts with `(`: `a < a > (T)a`; when the would-be argument list does not parse the
+        # (also when the operand only *starts* with `(`, e.g. `a < a > (++a)++`, where the call ends up below a postfix node;
+        # a cast as right operand also starts with `(`: `a < a > (T)a`; when the would-be argument list does not parse the
         # text is rejected instead of regrouped)
         if re.match(r"(tree-differs\[bin:GreaterThan->[^\]]*\]|rejected-by-parser) ret \(bin GreaterThan \(bin LessThan \(id a\) \(id a\)\) ", key):
-            key = pre + "(bin BitwiseAnd (id a) (id a)))"
+            family = True
         # the same misreading in any position (`f(a < b, c > (d))` reads as `f(a<b, c>(d))`): the re-read tree has
         # template arguments although the original has none at all
         eot = re.compile(r"\((?:E|B|T) \(")
         if key.startswith("tree-differs") and " ==> " in (obs or "") and not eot.search(req) and eot.search(obs.split(" ==> ", 1)[1]):
-            key = pre + "(bin BitwiseAnd (id a) (id a)))"
+            family = True
         # … and inside a tree that has template arguments of its own: the harness marks a failure whose *minimal* tree has
         # no expression-or-type position although its printed text reads back with one (`a << a < a ? a : a > (a ? a : a)`)
-        if key.startswith("tree-differs") and " reread-invents-template-args" in (detail or "").split(" min=")[0]:
-            key = pre + "(bin BitwiseAnd (id a) (id a)))"
+        if key.startswith("tree-differs") and " reread-invents-template-args" in marks:
+            family = True
         # … or the text is rejected because the would-be argument list does not parse (`a < a & a > (Foo<a>)a`): the minimal
         # tree keeps a `<` and a `>` operator outside every expression-or-type position and prints `>` in front of `(`
-        if key.startswith(("tree-differs", "rejected-by-parser")) and " lt-gt-paren" in (detail or "").split(" min=")[0]:
-            key = pre + "(bin BitwiseAnd (id a) (id a)))"
+        if key.startswith(("tree-differs", "rejected-by-parser")) and " lt-gt-paren" in marks:
+            family = True
+        if family:
+            # two or more entries of an argument list, an earlier one with a bare `<`, a later one with a bare `> (`
+            key = known_lt_gt_list if key.startswith("tree-differs[list-length]") else known_lt_gt
         return key
     m = re.match(r"FAIL:panic ([^:]+):\d+: (.*)$", detail or "")
     if m:
@@ -143,7 +155,9 @@ SPEC = {
             "in each operand position, casts, sizeof, nested template calls; depth 4 under assignment / comma / conditional / "
             "minus / cast) in nine expression-or-type positions (call and type-name template argument alone / first / after a "
             "type, sizeof operand, argument of a type that is itself an argument, array size of an abstract declarator) plus "
-            "random depth 3-6 trees weighted towards ?: < > >= >> >>= <= << , = in those positions; casts / sizeof / template calls over types with all modifiers, nested template arguments and "
+            "random depth 3-6 trees weighted towards ?: < > >= >> >>= <= << , = in those positions; lt-gt-lists: argument lists / comma "
+            "expressions with a bare < (<=, <<) in an earlier and a bare > (>=, >>) in a later entry, right operand parenthesised or not "
+            "(the known misreading, deliberately); source modules also write expression template arguments of every form; casts / sizeof / template calls over types with all modifiers, nested template arguments and "
             "declarators; literals of every kind over the whole value range; statement trees and function / struct definition trees of random programs; random source "
             "modules (statements, declarators, functions with attributes / templates / semantics / defaults, structs with "
             "methods and base types, enums, cbuffers, namespaces, resource globals). non-trivial = at least two operator nodes",
@@ -155,6 +169,8 @@ SPEC = {
         "format_struct prints base types, TypeModifier variants and Debug spellings, lexer "
         "keyword table, parse_type_modifiers_before/after arms, cast / sizeof / call arms and alternative orders (shape "
         "checks), sha256 fingerprints of 63 hand-modelled functions) - re-run on /repo's working tree every time",
+        "Lemmas/TArgClosed.lean `scan` / `cls`: the definition of `closed` (bracket scanner over the model's tokens) that "
+        "template_argument_closed is stated with",
         "hand-written Model/Format.lean, Model/Parse.lean (first model), Model/FormatFull.lean, Model/ParseFull.lean (casts, "
         "sizeof, template arguments, types, declarators), Model/FormatStmt.lean, Model/ParseStmt.lean (statements, local "
         "definitions), Model/FormatDef.lean, Model/ParseDef.lean (functions, parameters, structs) - tied to the code by the fingerprints and the correspondence run",
@@ -172,6 +188,13 @@ SPEC = {
         "white space of statements is compared collapsed; BracedInit, attributes on declarators, location annotations of "
         "locals, StaticSampler, template parameter lists, const / volatile methods and register / packoffset annotations "
         "are answered `unsupported` by the model and judged by the oracle only",
+        "the known template misreading `a < b ... > (c)` (finding 2, parser) is recognised on the MINIMAL failing tree: it has a `<` "
+        "and a `>` operator outside every expression-or-type position and either reads back with invented template arguments or "
+        "prints a lone `>` directly before `(`; two class keys (operand form, and the comma-list form `f(a < b, c > (d))` whose "
+        "argument count changes); a bare relational operator inside a template argument is never put into this class",
+        "random trees of the template-args stream are redrawn when their printed text nests `(` / `[` deeper than 7: the real "
+        "parser (and the model) re-read the inside of every `(` and `name <` twice, minutes per tree at a dozen levels; the "
+        "systematic catalogue is not bounded",
         "an expression-or-type position is compared on what syntax can tell: `Either(expr, type)` equals `Expression(expr)` "
         "(`T<(n[b])>` prints `T<n[b]>`, which reads back as Either; neither form is accepted by the type checker)",
     ],
